@@ -285,7 +285,7 @@ SendPublish(s, p) ==
         fits == au.pkt.size <= s3.mpsSend                                                          (* DEV 13 *)
         pk == IF fits THEN au.pkt ELSE p
         s4 == IF fits THEN [s3 EXCEPT !.taSend = au.ta] ELSE s3
-        s5 == IF p.ver = "v50" /\ q /\ s4.sendMax > 0 THEN [s4 EXCEPT !.cnt = @ \cup {p.pid}] ELSE s4
+        s5 == IF p.ver = "v50" /\ q /\ s4.sendMax > 0 /\ conn THEN [s4 EXCEPT !.cnt = @ \cup {p.pid}] ELSE s4   \* counted when sent
         rel == IF q /\ ~doStore THEN p.pid ELSE 0
     IN  IF conn THEN SendPlain(s5, pk, rel) ELSE R(s5, <<>>)
 
@@ -429,7 +429,7 @@ RecvConnack(s, p) ==
                       ELSE R([s2 EXCEPT !.tSend = TRUE], << EvReset("pingreq_send", p.ska * 1000) >>)
                  ELSE R(s2, <<>>)
            s3 == IF p.ver = "v50" /\ p.sei >= 0
-                 THEN IF p.sei = 0 THEN [ka.st EXCEPT !.needStore = FALSE]                              (* DEV 22: no clear *)
+                 THEN IF p.sei = 0 THEN [ka.st EXCEPT !.needStore = ka.st.offline]                      (* DEV 22: no clear *)
                       ELSE [ka.st EXCEPT !.needStore = TRUE]
                  ELSE ka.st
            r == IF p.sp THEN SendStored(s3) ELSE R(ClearStoreRelated(s3), <<>>)
